@@ -27,7 +27,7 @@ THEOREMS = [
     "C12_route_independent_partial", "C12_route_pyproject_refuted", "C12_finish_exact",
     "C12_packaging_independent_open", "C12_packaging_independent", "C12_packaging_independent_exists_partial",
     "C12_exists_dirs_refuted", "C12_real_cwd_irrelevant",
-    "C12_frame_partial", "C12_sequence_independent", "C12_failure_is_local", "C12_insert_leak_refuted",
+    "C12_frame", "C12_sequence_independent", "C12_failure_is_local",
 ]
 RULE = ("(a) generated setup()/setup.cfg declarations (canonical and re-spelled requirement lines, markers with "
         "and/or/groups, extras keys 'e', ':marker', 'e:marker', blank, quoted; str-vs-list shapes; ~15% malformed: bad "
@@ -70,9 +70,9 @@ LEVEL_TEXT = ("16 theorems over Gallina models of the setup()/setup.cfg harveste
               "models is TESTED (T2 b: generated programs x 3 packagings x 3 cwds x shuffled orders), not proved.  Frame "
               "condition (orders / earlier analyses / failures): over a state machine {cwd, sys.path, hooks, project modules, "
               "patched attributes} whose clean-up steps are generated from /repo's finally-blocks, one analysis gives the state "
-              "back for every script that adds nothing to sys.path (raising, sys.exit, popping the setup dir, chdir, failing PEP 517 "
-              "hook included), hence every sequence gives each project the result it gets alone; refuted for sys.path insertions "
-              "(known finding).")
+              "back for EVERY script (raising, sys.exit, any sys.path surgery or insertion, chdir, failing PEP 517 "
+              "hook included), hence every sequence gives each project the result it gets alone (full strength since the "
+              "sys.path restore of 6eecba5; the former leak is a fixed finding whose witness must keep passing).")
 LEVEL_NOTE = ("Trusted: Coq kernel, extraction, OCaml driver, T1/T2 harness; packaging/configparser/tarfile/zipfile semantics "
               "validated by sampling only; no semantics of Python: arbitrary setup scripts are outside the theorems.")
 TECHNIQUE = "Rocq proof over Gallina models (lexer automaton + fuelled parser compositionality, path algebra) + extraction-based differential correspondence"
@@ -1501,6 +1501,7 @@ class Frame:
         self.mods = dict(sys.modules)
         self.attrs = {n: (list(sys.argv) if n == "sys.argv" else _resolve_attr(n)) for n in names}
         self.root_level = logging.getLogger().level
+        self.capture = logging._warnings_showwarning is not None
 
     def delta(self) -> Dict[str, Any]:
         """what differs NOW from the snapshot, in the model's terms"""
@@ -1522,6 +1523,7 @@ class Frame:
             if (cur != self.attrs[n]) if n == "sys.argv" else (cur is not self.attrs[n] and cur != self.attrs[n]):
                 pat.append(n)
         out["patched"] = sorted(pat)
+        out["capture"] = logging._warnings_showwarning is not None
         return out
 
     def restore(self) -> None:
@@ -1547,6 +1549,7 @@ class Frame:
                         pass
                     break
         logging.getLogger().setLevel(self.root_level)
+        logging.captureWarnings(self.capture)
 
 
 FRAME_KINDS = ["helper", "helper", "pop0", "pop0", "drop", "remove", "insert", "raise", "sysexit", "chdir", "pep517", "pep517_broken"]
@@ -1635,12 +1638,13 @@ def dec_frame_answer(ans: str) -> List[Dict[str, Any]]:
         failed, escaped = o[2 + n] == "1", o[3 + n] == "1"
         i = 0
         cwd = unhx(st[i]); i += 1
+        capture = st[i] == "1"; i += 1
         k = int(st[i]); path = [unhx(x) for x in st[i + 1:i + 1 + k]]; i += 1 + k
         k = int(st[i]); hooks = k; i += 1 + k
         k = int(st[i]); mods = sorted(unhx(x.split(":")[0]) for x in st[i + 1:i + 1 + k]); i += 1 + k
         k = int(st[i]); pat = sorted(unhx(x) for x in st[i + 1:i + 1 + k])
         out.append({"guard": g[0] == "1", "resolved": unhx(o[0]), "seen": seen, "failed": failed, "escaped": escaped,
-                    "state": {"cwd": cwd, "path": path, "hooks": hooks, "modules": mods, "patched": pat}})
+                    "state": {"cwd": cwd, "path": path, "hooks": hooks, "modules": mods, "patched": pat, "capture": capture}})
     return out
 
 
@@ -1677,13 +1681,14 @@ def run_frame_sequence(enc440, MM, S, MetadataError, ws: Path, seq: List[Dict[st
                 before = Frame(names)
                 obs = observe_extract(enc440, MM, MetadataError, fp["_arg"], semantic=real_egg_info)
                 d = before.delta()
-                same = {"cwd": before.cwd, "path": before.path, "hooks": 0, "modules": [], "patched": []}
+                same = {"cwd": before.cwd, "path": before.path, "hooks": 0, "modules": [], "patched": [], "capture": before.capture}
                 changed = {k: v for k, v in d.items() if v != same[k]}
                 if "path" in changed:
                     changed["path"] = {"added": [x for x in d["path"] if x not in before.path],
                                        "removed": [x for x in before.path if x not in d["path"]]}
                 out.append({"obs": obs, "changed": changed, "cwd_before": before.cwd, "path_before": before.path,
-                            "state": {"cwd": d["cwd"], "path": d["path"],
+                            "capture_before": before.capture,
+                            "state": {"cwd": d["cwd"], "path": d["path"], "capture": d["capture"],
                                       "hooks": len([h for h in sys.meta_path if all(h is not m for m in start.meta)]),
                                       "modules": Frame.delta(start)["modules"], "patched": Frame.delta(start)["patched"]}})
     finally:
@@ -1717,7 +1722,7 @@ def t2_frames(ctx: Ctx, enc440, MM, S, MetadataError) -> None:
         ws.mkdir(parents=True, exist_ok=True)
         steps = run_frame_sequence(enc440, MM, S, MetadataError, ws, seq, names)
         # the model, started in the same cwd / sys.path
-        line = "S {} {} {} {}".format(hx(steps[0]["cwd_before"]), len(steps[0]["path_before"]), " ".join(hx(p) for p in steps[0]["path_before"]), len(seq))
+        line = "S {} {} {} {} {}".format(hx(steps[0]["cwd_before"]), int(steps[0]["capture_before"]), len(steps[0]["path_before"]), " ".join(hx(p) for p in steps[0]["path_before"]), len(seq))
         for fp in seq:
             line += " " + frame_model_project(fp, fp["_lead"], fp["_arg"], fp["_target"])
         model = dec_frame_answer(run_model("C12", [line])[0])
@@ -1726,11 +1731,11 @@ def t2_frames(ctx: Ctx, enc440, MM, S, MetadataError) -> None:
             case = {"sequence": [{k: v for k, v in f.items() if not k.startswith("_")} for f in seq], "position": pos}
             ctx.count("frames:kind:" + fp["kind"])
             ctx.count("frames:obs:" + st["obs"][0])
-            ctx.count("frames:inside-guard" if mo["guard"] else "frames:outside-guard")
+            ctx.count("frames:quiescent-before" if mo["guard"] else "frames:not-quiescent-before")
             ctx.case(key=("frame", json.dumps(case, sort_keys=True)), nontrivial=pos > 0,
                      sample={"case": case, "impl": st["obs"], "changed": st["changed"]} if (sidx == 0 and pos == 1) else None)
-            # (i) model-independent: the frame condition itself, for scripts that add nothing to sys.path
-            if fp["kind"] != "insert" and st["changed"]:
+            # (i) model-independent: the frame condition itself, for EVERY script (insertions included since 6eecba5)
+            if st["changed"]:
                 ctx.mismatch("frame-condition", case, st["changed"], {})
             # (ii) model-independent: the result is the project's own, whatever came before
             own = owner_of(st["obs"])
@@ -1883,7 +1888,10 @@ def run_corpus(ctx: Ctx, enc440, MM, S, MetadataError) -> None:
         if ans != entry["expect_model"]["answers"]:
             ctx.mismatch("corpus-model:" + f.stem, entry["id"], entry["expect_model"]["answers"], ans)
         still, obs = finding_status(ctx, entry, enc440, MM, S, MetadataError)
-        if not still:
+        if entry.get("status") == "fixed":
+            if still:          # a repaired defect must stay repaired
+                ctx.mismatch("fixed-witness-fails-again:" + f.stem, entry["id"], obs, "passes")
+        elif not still:
             ctx.notes.append(f"corpus witness {f.stem} no longer fails on the implementation: {obs}")
 
 
@@ -2012,7 +2020,7 @@ def oracle_frame_sequence(ctx: Ctx, enc440, MM, S, MetadataError, seq: List[Dict
             if obs[1] != fp["name"] or obs[2] != enc440.ver_token(Version(fp["version"])):
                 return who + ": name/version %s %s differ from its declaration %s %s" % (obs[1], obs[2], fp["name"], fp["version"])
     for pos, (fp, st) in enumerate(zip(seq, steps)):
-        if fp["kind"] != "insert" and st["changed"]:
+        if st["changed"]:
             return "after analysing project #%d (%s) the process state is not what it was: %s" % (pos, fp["kind"], json.dumps(st["changed"])[:300])
     return None
 
